@@ -133,6 +133,24 @@ def clause_phase(binary, scratch, log):
                     tail2.append("h(%d, A, B, X, c%d%s)." % (k, k, h))
                     bodies.append((h, body))
                     k += 1
+    # the same comparisons after is/2 or a call: the variables are permanent, a literal or a temporary may come first
+    SIDES2 = ["T", "A", "B", "0", "1.0", "T+1", "A+B", "3+4", "-T"]
+    PRE = ["T is A+1", "T is A+1, nop", "nop, T = A"]
+    for pre in PRE:
+        for l in SIDES2:
+            for r in SIDES2:
+                if "T" not in l + r and "A" not in l + r and "B" not in l + r:
+                    continue
+                for op in ("<", ">=", "=:="):
+                    for f in ("X = r(A,B,T)", "\\+ %s %s %s, X = n(T)" % (r, op, l), "X is T+B"):
+                        h = HEADS[k % len(HEADS)]
+                        body = "%s, %s %s %s, %s" % (pre, l, op, r, f)
+                        lines.append("c%d%s :- %s." % (k, h, body))
+                        tail.append("b(%d, A, B, X, (%s))." % (k, body))
+                        tail2.append("h(%d, A, B, X, c%d%s)." % (k, k, h))
+                        bodies.append((h, body))
+                        k += 1
+    lines.append("nop.")
     lines += tail + tail2
     lines.append("pair(A, B) :- member(A-B, [%s])." % ", ".join("(%d)-(%d)" % p for p in PAIRS))
     lines.append("main :- between(0, %d, K), pair(A, B), h(K, A, B, X, G), res(G, X, C), b(K, A, B, Y, Body), res(run(Body), Y, R), cmp(K, A, B, C, R), fail." % (k - 1))
